@@ -7,7 +7,7 @@
    hypothesis.  The loader's SECOND merge of the same pair (Model/C19_reload.v: remerge, settle, load_package2) is
    characterised exactly; its idempotence holds modulo the known finding C19-F5 (gap predicate: not quiet_moved). *)
 From Coq Require Import List ZArith String Bool Arith.
-From Verif Require Import Lib.Sexp Model.C19_merge Proofs.C19_merge Model.C19_reload Model.C19_seq Proofs.C19_reload Proofs.C19_chain Proofs.C19_seq.
+From Verif Require Import Lib.Sexp Model.C19_merge Proofs.C19_merge Model.C19_reload Model.C19_seq Proofs.C19_reload Proofs.C19_chain Proofs.C19_seq Proofs.C19_subs.
 Import ListNotations.
 Open Scope string_scope. Open Scope list_scope. Open Scope nat_scope.
 
@@ -358,3 +358,28 @@ Theorem C19_adjacent_pair_hypotheses_satisfiable :
      ("m", exs_mpy)].
 Proof. exact adjacent_pair_hypotheses_satisfiable. Qed.
 Print Assumptions C19_adjacent_pair_hypotheses_satisfiable.
+
+(* Stubs in a separate stubs package (pkg-stubs): its submodules are loaded into the stubs module between the two merges.
+   The loaded package = the second merge of the __init__ pair (resettle: see C19_second_merge_only_settles) followed by ONE
+   ordinary merge of the stubs submodules into the runtime package - so every one-merge theorem above applies to the
+   submodules as it stands.  Submodule names are unique and bound by nothing in the stubs __init__. *)
+Theorem C19_double_merge_stubs_package :
+  forall s subs, wfs s -> has_dicts s = true -> root_container s = true ->
+  NoDup (names subs) -> (forall n, In n (names subs) -> ~ In n (names (members s))) ->
+  forall top r, merge_obj s top = Done r ->
+  exists rd rms, resettle s top r = Obj rd rms /\
+    load_package2 top s subs =
+    match merge_members merge_obj subs rms with
+    | (rms', None) => Ok (Obj rd rms')
+    | (_, Some e) => Err e
+    end.
+Proof. exact load_package_stubs_package. Qed.
+Print Assumptions C19_double_merge_stubs_package.
+
+Theorem C19_double_merge_stubs_package_example :
+  NoDup (names exp_subs) /\ (forall n, In n (names exp_subs) -> ~ In n (names (members ex5_s_ok))) /\
+  exists t, load_package2 exp_top ex5_s_ok exp_subs = Ok t /\
+    at_path ["sub"; "h"] t = Some (Obj (with_ret (with_params (nd KFun) [("x", Some "int")]) (Some "int")) []) /\
+    at_path ["S"] t = Some (set_rt false (ex5_S [] [("k", ex5_g)])).
+Proof. exact stubs_package_example. Qed.
+Print Assumptions C19_double_merge_stubs_package_example.
